@@ -37,13 +37,13 @@ ObsOpenLeaves(x) == SelectSeq(ObsPaths(x), LAMBDA e : Sub(x, e[1]).open)
 ObsLen(x) == Size(x)
 
 (* ---- operations ------------------------------------------------------ *)
-ReplaceResult(x, p, k) == ReplaceAt(x, p, Lib[k])
+ReplaceResult(x, p, k) == TreeReplaceAt(x, p, Lib[k])
 (* substitute: every mapped node that is still present is replaced; nested *)
 (* targets are not generated                                               *)
 RECURSIVE SubstResult(_, _)
 SubstResult(x, m) ==    \* m : sequence of <<id, k>>
   IF m = <<>> THEN x
-  ELSE IF HasId(x, Head(m)[1]) THEN SubstResult(ReplaceAt(x, PathOfId(x, Head(m)[1]), Lib[Head(m)[2]]), Tail(m))
+  ELSE IF HasId(x, Head(m)[1]) THEN SubstResult(TreeReplaceAt(x, PathOfId(x, Head(m)[1]), Lib[Head(m)[2]]), Tail(m))
   ELSE SubstResult(x, Tail(m))
 
 (* expand_one_step: every open leaf is expanded by one alternative; the    *)
